@@ -316,7 +316,29 @@ def answer (ws : List String) : String :=
 
 end Val
 
+/-- case kind `mgr`: the policy the model states (`Mgr.unknown_sections_policy`, `Mgr.display_hides_all_hidden`,
+`Mgr.dup_last_wins`): unknown components (objects and nulls) are kept by ToJSON, top-level keys that are no
+section group are dropped by json.Unmarshal, an undefined registered component is written with its defaults,
+the last duplicate key wins, nothing unregistered is displayed -/
+def mgrAnswer (ws : List String) : String :=
+  match splitArrow ws with
+  | none => "bad-case"
+  | some (pre, post) =>
+    let g := fun k => (kvOf post k).getD "?"
+    let o : MgrObs := { res := g "res", fix := g "fix" == "1", leak := g "leak" == "1", masked := g "masked" == "1" }
+    let arm := "mgr-" ++ (pre.head?.getD "-") ++ "-" ++ o.res
+    let failed := (mgrClauses o).filter (fun c => !c.2)
+    if !failed.isEmpty then "propfail " ++ ",".intercalate (failed.map (·.1)) ++ " arm=" ++ arm
+    else if o.res != "ok" then "diff arm=" ++ arm ++ " model=accept"
+    else
+      let exp := [("unkcomp", "kept"), ("unknull", "kept"), ("unktop", "dropped"), ("undef", "written"), ("disp", "absent")] ++
+        (if pre.head? == some "dup" then [("dup", "last")] else [("dup", "other")])
+      match exp.find? (fun (k, v) => g k != v) with
+      | some (k, v) => "diff arm=" ++ arm ++ " model=" ++ k ++ ":" ++ v
+      | none => "ok arm=" ++ arm
+
 def answer (ws : List String) : String :=
+  if ws.head? == some "mgr" then mgrAnswer (ws.drop 1) else
   if ws.head? == some "src" then Src.answer (ws.drop 1) else
   if ws.head? == some "val" then Val.answer (ws.drop 1) else
   match parseCase ws with
